@@ -87,6 +87,8 @@ type World struct {
 	logHash  uint64
 	Log      []string
 	KeepLog  bool
+	DebugDraws bool
+	DebugY     bool
 	Events   []Event
 	start    time.Time
 	Faults   map[string]int
@@ -98,6 +100,9 @@ type World struct {
 	Injected time.Duration // total delay injected by the simulator (yields + latency)
 
 	Hooks []func(ev *Event) // oracles observing kernel events while the run proceeds
+	// OnPipeWrite observes every write to a pipe before it is queued (raw
+	// stdout/stderr taps); it runs on the writer's goroutine.
+	OnPipeWrite func(pipe string, p *Proc, data []byte)
 
 	HostPanic string
 	Fatal     func(msg string) // called on host panic
@@ -333,6 +338,9 @@ func (w *World) Ev(p *Proc, kind, key, arg string) {
 	}
 	_ = b
 	if w.KeepLog {
+		if w.DebugDraws {
+			line += fmt.Sprintf(" [draws=%d]", rtDraws())
+		}
 		w.Log = append(w.Log, line)
 	}
 	hooks := w.Hooks
@@ -489,6 +497,9 @@ func Y(site string) {
 		pname = p.Name
 	}
 	w.mu.Lock()
+	if w.DebugY {
+		w.Log = append(w.Log, fmt.Sprintf("   Y %s %s [draws=%d]", pname, site, rtDraws()))
+	}
 	if w.Spec.Profile {
 		w.SitePass[pname+" "+site]++
 		id := pname + "|site|" + site
